@@ -392,7 +392,12 @@ def rule_good_filters(ctx, res):
     r0 = rets[0].ret
     if not (r0[0] == 'agg' and r0[1] == 'tuple'):
         raise Lost('load_contacts does not return a tuple')
-    sets = {strip_transparent(r0[2].get('0')): 'good', strip_transparent(r0[2].get('1')): 'questionable'}
+    def set_id(t):
+        t = strip_transparent(t)
+        # a set local grown inside the loops is a loop-carried variable: identify it by its local
+        return ('local', t[1]) if isinstance(t, tuple) and t[0] == 'loopvar' else t
+
+    sets = {set_id(r0[2].get('0')): 'good', set_id(r0[2].get('1')): 'questionable'}
 
     def classify(lit, c):
         s = status_atom(ctx, lit, lambda call: True)
@@ -406,7 +411,7 @@ def rule_good_filters(ctx, res):
     def outcome(p):
         outs = []
         for e in lib.calls_of(p, '::insert'):
-            tgt = strip_transparent(e[2][0])
+            tgt = set_id(e[2][0])
             outs.append(sets.get(tgt, 'other'))
             val = e[2][1]
             if 'addr' not in field_chain(val) or not find_calls(val, 'Node::handle'):
@@ -453,3 +458,4 @@ def run(ctx, res):
     rule_who_writes(ctx, res)
     rule_good_filters(ctx, res)
     rule_queries_mark_only(ctx, res)
+    common.rule_find_node_identity(ctx, res)
